@@ -285,7 +285,7 @@ theorem evFold_frame (armed : List Fd) (fd : Fd) (fds : List Fd) (acc : St × Li
 /-- delivering events changes neither the recorded interests nor the kernel table -/
 theorem C21_event_frame (s : St) (fd : Fd) (h : Cons s) : Cons (readyRead s fd).1 := by
   intro fd'
-  have hh := evFold_frame s.armed fd (s.armed ++ (if has s.armed fd then [] else [fd])) (s, [])
+  have hh := evFold_frame s.armed fd (pollOrder s fd) (s, [])
   have hK : (readyRead s fd).1.K = s.K := hh.1
   have hR : (readyRead s fd).1.R = s.R := hh.2.1
   have hW : (readyRead s fd).1.W = s.W := hh.2.2
